@@ -146,6 +146,11 @@ def run(ctx, sides=SIDES, want_tb=False, prop="C01"):
     # Mux / Array indexing whose selector or branch is the result of one sign reinterpretation, complement or shift
     choice = dict(tern, leafbits=2, leafshapes="LSp", ops="ChoiceOps", maxlen=6, maxstack=3, mode="pair")
     run_dump_stage(ctx, "choice", choice, want_tb, sides, prop)
+    if want_tb:
+        # (C05 only) Array indexing with an index that equals no position - negative, or beyond the last element -
+        # must read as in the circuit: nothing is selected
+        oor = dict(tern, nsig=4, leafbits=2, leafshapes="LSp", ops="ChoiceOpsS", maxlen=5, maxstack=4, mode="single")
+        run_dump_stage(ctx, "oor-index", oor, want_tb, sides, prop)
     run_sim_stage(ctx, "compose", comp, 60000 if th else 8000, want_tb, sides, prop)
     # wide operands (5..8 bit leaves, results up to 26 bits) on 64 sampled corner valuations
     run_sim_stage(ctx, "wide", wide_instance(th), 30000 if th else 4000, want_tb, sides, prop)
